@@ -361,7 +361,14 @@ impl<'a> G14<'a> {
             }
             14 => self.pick(&cands, is_listy).map(|c| c.expr.clone()).map(|e| {
                 self.marker += 1;
-                (format!("(for-each (lambda (x) (if (pair? x) (set-car! x 'fe{}))) {})", self.marker, e), "for-each")
+                // what the procedure returns is of no concern to for-each: every element is visited
+                let body = match self.rng.below(4) {
+                    0 => format!("(if (pair? x) (set-car! x 'fe{}))", self.marker),
+                    1 => format!("(and (pair? x) (begin (set-car! x 'fe{}) #f))", self.marker),
+                    2 => format!("(if (pair? x) (set-car! x 'fe{})) #f", self.marker),
+                    _ => format!("(if (pair? x) (begin (set-car! x 'fe{}) (eq? x 'never)) '())", self.marker),
+                };
+                (format!("(for-each (lambda (x) {}) {})", body, e), "for-each")
             }),
             15 => self.pick(&cands, |_| true).map(|c| (format!("(list? {})", c.expr), "list?")),
             16 => {
